@@ -5,6 +5,8 @@ ENGINES = [
      'kind_free_text': 'real hpl.rewrite / hpl.ast code run on enumerated trees; input and output ASTs translated to quantifier-free z3 terms; equivalence decided for all valuations; models replayed through an independent Python evaluator'},
     {'name': 'SP', 'path': 'vf/sp.py', 'serves_properties': ['C02', 'C15'],
      'kind_free_text': 'decision-list symbolic executor running the real hpl.ast constructors/queries on str proxies whose identity is a z3 Int (symbolic alias/variable/channel names)'},
+    {'name': 'FP', 'path': 'vf/fp.py', 'serves_properties': ['C06', 'C01'],
+     'kind_free_text': 'Python-ast -> z3 Float64 translation of HplPattern.__str__ and PropertyTransformer.time_amount, regenerated from the current source'},
     {'name': 'TR', 'path': 'vf/tr.py', 'serves_properties': ['C12'],
      'kind_free_text': 'z3 formula of the reference trace semantics generated from real HplProperty objects over a symbolic timed trace; Python evaluator for replay'},
     {'name': 'SX', 'path': 'vf/sx.py, vf/harness/', 'serves_properties': ['C08', 'C11', 'C14'],
@@ -135,6 +137,14 @@ CHECKS['C17'] = {
              'token constructors with symbolic min/max/length; navigation helpers with a symbolic probe name.'),
     'note': 'Trusted: z3; proxies (each path re-run with real str/int values); schema oracle in vf/schemas.py.',
     'technique': 'symbolic execution on z3-backed name/int proxies + bit-vector queries + single-fault injection',
+}
+
+CHECKS['C06'] = {
+    'engine': 'FP+roundtrip', 'category': 'other', 'design_ref': 'DESIGN.md 1 (FP), 4 (C06)',
+    'text': ('FP: the float arithmetic of the real HplPattern.__str__ and PropertyTransformer.time_amount is translated from their current source into z3 Float64 terms and the print/parse '
+             'round trip of the time bound is decided for ALL finite doubles >= 0 (complete for that obligation). print -> parse -> print with equality, hash, fixed point and printer injectivity over every accepted text of the families.'),
+    'note': 'Trusted: z3 floating-point theory; CPython repr/float round trip; the 200-line Python-ast -> z3 translator (fails loudly outside its fragment). The print/parse part is concrete execution of real parser and printers.',
+    'technique': 'z3 Float64 encoding generated from the real printing/parsing source + print/parse/print on enumerated accepted texts',
 }
 
 NOT_APPLICABLE = {}
